@@ -1,16 +1,17 @@
 #!/usr/bin/env python3
-"""tools/mkseedprompt.py Cxx [n] -> /tmp/seedprompts/seed-Cxx.txt, creates /tmp/seedwt-Cxx (worktree of /repo HEAD)"""
+"""tools/mkseedprompt.py Cxx [n] [suffix] -> /tmp/seedprompts/seed-Cxx.txt, creates /tmp/seedwt-Cxx (worktree of /repo HEAD)"""
 import json, os, subprocess, sys
 P = sys.argv[1]; N = sys.argv[2] if len(sys.argv) > 2 else "2"
 here = os.path.dirname(os.path.dirname(os.path.abspath(__file__)))
 p = [json.loads(l) for l in open(os.path.join(here, "properties.jsonl")) if json.loads(l)["id"] == P][0]
-wt = f"/tmp/seedwt-{P}"; out = "/tmp/seedout"
+SUF = sys.argv[3] if len(sys.argv) > 3 else ""
+wt = f"/tmp/seedwt-{P}{SUF}"; out = f"/tmp/seedout{SUF}"
 os.makedirs(out, exist_ok=True); os.makedirs("/tmp/seedprompts", exist_ok=True)
 if not os.path.exists(wt):
     subprocess.run(["git", "-C", "/repo", "worktree", "add", "-q", "--detach", wt, "HEAD"], check=True)
-t = open("/root/work/prompts/seed_common.txt").read()
+t = open(os.path.join(here, "tools", "seed_prompt.txt")).read()
 for k, v in {"{WT}": wt, "{OUT}": out, "{P}": P, "{N}": N, "{TITLE}": p["title"], "{STATEMENT}": p["statement"],
              "{QUANT}": p["quantifier"]["text"], "{FILES}": ", ".join(p["anchors"]["files"])}.items():
     t = t.replace(k, v)
-open(f"/tmp/seedprompts/seed-{P}.txt", "w").write(t)
-print(f"/tmp/seedprompts/seed-{P}.txt")
+open(f"/tmp/seedprompts/seed-{P}{SUF}.txt", "w").write(t)
+print(f"/tmp/seedprompts/seed-{P}{SUF}.txt")
